@@ -29,7 +29,7 @@ def _target(case, inp):
 def _build(case):
     import numpy as np
     from pyrates import OperatorTemplate, NodeTemplate, CircuitTemplate
-    op = OperatorTemplate(name="op", equations=["x' = u"], variables={"x": "output(0.0)", "u": "input(0.0)"})
+    op = OperatorTemplate(name="op", equations=["x' = u"], variables={"x": "output(0.0)", "u": f"input({float(Fr(case.get('udef', 0)))})"})
     names = case["names"]
     nodes = {f"n{names[i]}": NodeTemplate(name=f"n{names[i]}", operators={op: {"x": float(Fr(case["x0"][i]))}}) for i in range(case["nn"])}
     edges = [(f"n{names[j]}/op/x", f"n{names[i]}/op/u", None, {"weight": float(Fr(w))})
@@ -50,6 +50,18 @@ def impl(case):
     from pyr import reset_pyrates
     reset_pyrates()
     try:
+        if case.get("prelude"):
+            # an earlier compilation in the same process with another array on the same variable, kept (clear=False),
+            # then the documented partial cache reset: must not leak into the measured run
+            c0, inputs0 = _build(case)
+            try:
+                c0.get_run_func("vf0", step_size=float(Fr(case["dt"])), inputs={k: 100.0 + 7.0 * np.asarray(v) for k, v in inputs0.items()} or None,
+                                solver="euler", vectorize=False, in_place=False, verbose=False, clear=False,
+                                float_precision="float64", backend="default", file_name="vf0m")
+            except (IndexError, ValueError, AttributeError, ZeroDivisionError):
+                pass
+            from pyrates import clear_frontend_caches
+            clear_frontend_caches(clear_ir_cache=False)
         c, inputs = _build(case)
         pre = _prefix(case["depth"])
         try:
@@ -144,7 +156,8 @@ def exact_ok(case):
     def f(k, y):
         out = []
         for i in range(nn):
-            terms = [u(i, k)] + [W[i][j] * y[j] for j in range(nn)]
+            cov = any(i in addressed(case, inp) for inp in case["inputs"]) or any(W[i][j] != 0 for j in range(nn))
+            terms = [u(i, k) if cov else Fr(case.get("udef", 0))] + [W[i][j] * y[j] for j in range(nn)]
             v = sum(terms); see(v, sum(abs(t) for t in terms) + 64); out.append(v)
         return out
     try:
@@ -185,7 +198,8 @@ def gen_fixed(rng):
     depth = rng.choice([0, 0, 0, 1, 1, 2])
     extra = rng.choice([0, 0, 0, 1, 3]) if rng.random() < 0.93 else -1          # a too short array: IndexError
     x0, W, names = gen_net(rng, nn)
-    case = dict(kind="fixed", solver=rng.choice(["euler", "heun"]), vectorize=vectorize, depth=depth, T=str(T), dt=str(dt), nn=nn,
+    case = dict(kind="fixed", solver=rng.choice(["euler", "heun"]), vectorize=vectorize, depth=depth,
+                udef=str(rng.choice([0, 0, Fr(1, 2), 1, Fr(-1, 2), 2])), prelude=(not vectorize) and rng.random() < 0.3, T=str(T), dt=str(dt), nn=nn,
                 x0=[str(v) for v in x0], W=[[str(v) for v in r] for r in W], names=names,
                 inputs=gen_inputs(rng, nn, vectorize, max(1, steps + extra)))
     dedup_targets(case)
@@ -209,7 +223,7 @@ def gen_adaptive(rng):
             ts.append(h * rng.randint(0, N - 2) + h * Fr(rng.randint(1, 7), 8))   # strictly between
         else:
             ts.append(rng.choice([Fr(-1, 2), T, T + 1, T - h / 4, Fr(0)]))        # clamped / last interval
-    case = dict(kind="adaptive", solver="scipy", vectorize=vectorize, depth=rng.choice([0, 0, 1]), T=str(T), dt=str(dt), nn=nn,
+    case = dict(kind="adaptive", solver="scipy", udef=str(rng.choice([0, 0, Fr(1, 2), 1, -1])), prelude=(not vectorize) and rng.random() < 0.3, vectorize=vectorize, depth=rng.choice([0, 0, 1]), T=str(T), dt=str(dt), nn=nn,
                 x0=[str(v) for v in x0], W=[[str(v) for v in r] for r in W], names=names, ts=[str(t) for t in ts],
                 inputs=gen_inputs(rng, nn, vectorize, N, allow_bad=False))
     dedup_targets(case)
@@ -230,17 +244,17 @@ HEADER = """From Coq Require Import List ZArith QArith Qcanon Bool Arith.
 From PV Require Import History Solver Interp Inputs Corr.
 Import ListNotations.
 Local Open Scope nat_scope.
-Record tcase := { adaptive : bool; sv : solver; vec : bool; cdepth : nat; cT : Qc; cdt : Qc; cW : list row;
+Record tcase := { adaptive : bool; sv : solver; vec : bool; cdepth : nat; cT : Qc; cdt : Qc; cudef : Qc; cW : list row;
                   cin : list (arr * list nat); cx0 : row; cts : list Qc }.
 Fixpoint collect (l : list (option row)) : option (list row) :=
   match l with [] => Some [] | Some r :: l' => option_map (cons r) (collect l') | None :: _ => None end.
 Definition implO (c : tcase) : outcome :=
   if adaptive c then
-    match collect (map (fun t => vf_adaptive (cdt c) (cW c) (cin c) t (cx0 c)) (cts c)) with Some rows => Rows rows | None => ErrShape end
-  else run_inputs (sv c) (vec c) (cdepth c) (cT c) (cdt c) (cW c) (cin c) (cx0 c).
+    match collect (map (fun t => vf_adaptive (cdt c) (cudef c) (cW c) (cin c) t (cx0 c)) (cts c)) with Some rows => Rows rows | None => ErrShape end
+  else run_inputs (sv c) (vec c) (cdepth c) (cT c) (cdt c) (cudef c) (cW c) (cin c) (cx0 c).
 Definition specO (c : tcase) : outcome :=
   if adaptive c then implO c      (* the adaptive Spec is interp_np on linspace itself: see C08.v for what it means *)
-  else Rows (spec_run_inputs (sv c) (cT c) (cdt c) (cW c) (cin c) (cx0 c)).
+  else Rows (spec_run_inputs (sv c) (cT c) (cdt c) (cudef c) (cW c) (cin c) (cx0 c)).
 Definition okI (p : tcase * outcome) := outcome_eqb (implO (fst p)) (snd p).
 Definition okS (p : tcase * outcome) := outcome_eqb (specO (fst p)) (snd p).
 Definition g_depth (p : tcase * outcome) := depth_ok (cdepth (fst p)) (cin (fst p)).
@@ -262,7 +276,7 @@ def coq_case(case, out):
         a = f"(A1 {row(inp['data'])})" if inp["shape"] == "1d" else f"(A2 {clist([row(r) for r in inp['data']])})"
         ins.append(f"({a}, {clist([cnat(i) for i in addressed(case, inp)])})")
     t = (f"{{| adaptive := {cbool(case['kind'] == 'adaptive')}; sv := {'Heun' if case['solver'] == 'heun' else 'Euler'}; "
-         f"vec := {cbool(case['vectorize'])}; cdepth := {cnat(case['depth'])}; cT := {cq(case['T'])}; cdt := {cq(case['dt'])}; "
+         f"vec := {cbool(case['vectorize'])}; cdepth := {cnat(case['depth'])}; cT := {cq(case['T'])}; cdt := {cq(case['dt'])}; cudef := {cq(case.get('udef', 0))}; "
          f"cW := {clist([row(r) for r in case['W']])}; cin := {clist(ins)}; cx0 := {row(case['x0'])}; "
          f"cts := {row(case.get('ts', []))} |}}")
     return f"({t}, {coq_outcome(out)})"
@@ -368,6 +382,9 @@ def check(ctx):
                 vectorize=sum(1 for c in cases if c["vectorize"]), depth={str(d): sum(1 for c in cases if c["depth"] == d) for d in (0, 1, 2)},
                 n_inputs={str(k): sum(1 for c in cases if len(c["inputs"]) == k) for k in range(4)},
                 shapes={s: sum(1 for c in cases for i in c["inputs"] if i["shape"] == s) for s in ("1d", "col", "2d")},
+                nonzero_default=sum(1 for c in cases if Fr(c.get("udef", 0)) != 0), with_prelude=sum(1 for c in cases if c.get("prelude")),
+                default_and_two_inputs_on_different_units=sum(1 for c in cases if Fr(c.get("udef", 0)) != 0 and c["vectorize"] and
+                                                              len({tuple(addressed(c, i)) for i in c["inputs"]}) >= 2),
                 with_edges=sum(1 for c in cases if any(Fr(w) != 0 for r in c["W"] for w in r)),
                 two_sources_on_one_unit=sum(1 for c in cases if any(sum(1 for i in c["inputs"] if u in addressed(c, i)) +
                                                                     sum(1 for w in c["W"][u] if Fr(w) != 0) >= 2 for u in range(c["nn"]))),
